@@ -114,6 +114,8 @@ class MethodMixin:
                 if not self.cur_pure():
                     self.path.assume(c >= 0)
                 return c
+            if v.kind == 'dict':
+                return self.card(v.term)          # the number of keys
             raise Unsupported('len of dict box')
         if z3.is_expr(v):
             return z3.Length(v)
@@ -296,8 +298,35 @@ class MethodMixin:
             return set(items)
         raise Unsupported('set(symbolic)')
 
+    def card(self, setterm):
+        self.assumptions.add('len(set) is an uninterpreted non-negative function of the set (cardinality is not modelled)')
+        c = self.ufun('py_card_' + ''.join(ch if ch.isalnum() else '_' for ch in str(setterm.sort())), setterm.sort(), INT)(setterm)
+        if not self.cur_pure():
+            self.path.assume(c >= 0)
+        return c
+
+    def sorted_of_set(self, setterm, esort_api):
+        """sorted(S) for a set of strings / integers without key: a function of the set whose value lists members of S only, strictly
+        increasing (so each at most once), len(S) of them (so every member is there)"""
+        esort = setterm.sort().domain()
+        nm = 'py_sorted_set_' + ''.join(c for c in str(esort) if c.isalnum())
+        r = self.ufun(nm, setterm.sort(), z3.SeqSort(esort))(setterm)
+        if not self.cur_pure() and (esort == STR or esort == INT):
+            i_, j_ = z3.Int('q!si'), z3.Int('q!sj')
+            lt = lambda x, y: x < y          # (z3: str.< on strings, code-point lexicographic as in CPython)
+            p = self.path
+            p.assume(z3.ForAll([i_], z3.Implies(z3.And(0 <= i_, i_ < z3.Length(r)), z3.Select(setterm, r[i_]))), heavy=True)
+            p.assume(z3.ForAll([i_, j_], z3.Implies(z3.And(0 <= i_, i_ < j_, j_ < z3.Length(r)), lt(r[i_], r[j_]))), heavy=True)
+            p.assume(z3.Length(r) == self.card(setterm), heavy=True)
+            self.assumptions.add('sorted(set): a function of the set — its members only, strictly increasing, len(set) of them')
+        return VBox('list', r, esort_api)
+
     def b_sorted(self, a, k, n, f):
         v = a[0]
+        if isinstance(v, IterView) and v.kind == 'dict' and len(v.parts) == 1 and v.parts[0][1] == 'keys' and k.get('key') is None and not k.get('reverse'):
+            return self.sorted_of_set(v.parts[0][0].term, v.parts[0][0].esort)          # sorted(d.keys()) / sorted(d)
+        if isinstance(v, VBox) and v.kind == 'dict' and k.get('key') is None and not k.get('reverse'):
+            return self.sorted_of_set(v.term, v.esort)
         if isinstance(v, VBox) and v.kind == 'set' and v.term is not None:
             esort = v.term.sort().domain()
             nm = 'py_sorted_set_' + ''.join(c for c in str(esort) if c.isalnum())
